@@ -2,7 +2,7 @@
 evidence must contain.  (The deciding logic lives in the C monitors.)"""
 
 KIT = ["vf_kit.c"]
-HOOK_COMMITS = []
+HOOK_COMMITS = ["293245019aab00eb22a1128a34c20e0120c9bf0d"]
 NOT_APPLICABLE = {}
 
 
